@@ -213,7 +213,8 @@ def leaves(change):
 
 def run_batch(arg):
     """all offsets of one (module, kind) on one fixture copy (rebuilt whenever a perform cannot be undone)"""
-    modrel, kind, offsets = arg
+    modrel, kind, offsets = arg[:3]
+    variant = arg[3] if len(arg) > 3 else "plain"
     common.use_repo()
     from rope.base import project as project_mod, exceptions, change as change_mod
 
@@ -231,7 +232,17 @@ def run_batch(arg):
             for n in os.listdir(base):
                 shutil.rmtree(os.path.join(base, n))
             root, sib = make_fixture(base)
+            if variant == "moved-into-ignored":
+                with open(os.path.join(root, "ign", "__init__.py"), "w") as f:
+                    f.write("")
             state["project"] = project_mod.Project(root, python_path=[sib], ignored_resources=["ign", ".ropeproject"])
+            if variant == "moved-into-ignored":
+                # a history before the request: the file list is cached, then a module that uses a.func
+                # is moved by rope into the ignored package; later requests must leave it alone
+                from rope.refactor import move
+                pr = state["project"]
+                pr.get_files()
+                pr.do(move.create_move(pr, pr.get_resource("pkg/c.py")).get_changes(pr.get_resource("ign")))
             state["snap"] = snap(base)
 
         fresh()
@@ -241,7 +252,7 @@ def run_batch(arg):
             before = state["snap"]
             src = before[os.path.join("proj", modrel.replace("/", os.sep))][0].decode()
             tc = token_class(src, off) if off is not None else "module"
-            tr = {"kind": kind, "module": modrel, "offset": off, "token": tc, "events": []}
+            tr = {"kind": kind, "module": modrel, "offset": off, "token": tc, "variant": variant, "events": []}
             changes = None
             exc = None
             try:
@@ -376,13 +387,18 @@ def main(tier):
                 batches.append((m, kind, sel[k:k + 40]))
         for kind in MODULE_KINDS:
             batches.append((m, kind, [None]))
+    # multi-step histories before the request
+    offs_a = list(range(len(A_SRC) + 1))
+    for kind in ("rename", "change_signature", "inline", "move", "encapsulate_field", "introduce_factory"):
+        for k in range(0, len(offs_a), 40):
+            batches.append(("a.py", kind, offs_a[k:k + 40], "moved-into-ignored"))
     traces = []
     for r in replay.pool_map(run_batch, batches, chunk=1):
         if "machinery" in r:
             verdict.machinery_failure(r["machinery"][:800])
             continue
         traces.extend(r["traces"])
-    traces.sort(key=lambda t: (t["module"], t["kind"], -1 if t["offset"] is None else t["offset"]))
+    traces.sort(key=lambda t: (t["variant"], t["module"], t["kind"], -1 if t["offset"] is None else t["offset"]))
     # TLC validates the whole batch (-continue: every violated invariant is reported with its state,
     # whose tid identifies the trace)
     import re
@@ -426,6 +442,8 @@ def main(tier):
         t = traces[idx]
         ev = t["events"][-1]
         key = {"clauses": [clause], "kind": t["kind"], "exc": ev.get("exc")}
+        if t["variant"] != "plain":
+            key["variant"] = t["variant"]
         verdict.failure(key, {"property": PROP, "key": key, "trace": t})
     performed = sum(1 for t in traces if t["events"][-1]["ev"] == "perform")
     refused = sum(1 for t in traces if t["events"][-1]["ev"] == "refuse")
